@@ -128,6 +128,8 @@ func runC07(r *engine.Run) {
 	r.Rule("FRESH-write", "see C06: in TransactionCache.Set, BlockCache.Set and BlockCache.setValue every entry stored into the pending map carries in its data field the result of a Clone() call (provenance dataflow over the local entry), never the previous entry's object refreshed in place")
 	r.Rule("DOM-txreset", "see C06: Commit hands the pending writes to the block cache and then empties the transaction's pending map: every return of TransactionCache.Commit is dominated by a store of a new map into the field (or clear / delete of every iterated key) that comes after the hand-over loop. Entries left behind keep answering as own uncommitted writes and are pushed again by the next Commit")
 	r.Rule("DOM-commitall", "see C06: inside StateCache.commit's loop over the block's pending map, the next iteration is not reachable without adding the entry to the key's versions map: no write or tombstone of the block is skipped")
+	r.Rule("RET-pair", "see C06: the two results of a lookup agree (no miss is turned into a remembered answer)")
+	r.Rule("LOCK-commit", "see C08: every write into the key->versions map, a per-key versions map or the block-link map that is reachable from StateCache.commit happens with StateCache.lock held (two committers must not create a key's versions map side by side)")
 	r.NotDec = append(r.NotDec, "after commit the committed values are what descendant lookups return (value-level; see C06)")
 	cloneBoundary(r, "C07")
 	cloneLinear(r)
@@ -140,6 +142,8 @@ func runC07(r *engine.Run) {
 	freshWrite(r, "FRESH-write")
 	domCommitAll(r, "DOM-commitall")
 	domTxReset(r, "DOM-txreset")
+	retPair(r, "RET-pair")
+	lockCommitOnly(r, "LOCK-commit")
 }
 
 // cloneBoundary checks every sink in package statecache.
